@@ -117,20 +117,164 @@ func (w *world) parseActions(list []string) []crhp2.RPCWriteAction {
 	return out
 }
 
-// locked2 runs fn inside an RHP2 session holding the lock of contract c.
-func (w *world) locked2(c int, fn func(t2 *crhp2.Transport, rev *crhp2.ContractRevision) error) (err error, panicked bool, msg string) {
+// sess2 is an open RHP2 session holding the lock of one contract across several RPCs.
+type sess2 struct {
+	c    int
+	t2   *crhp2.Transport
+	done func()
+	// revisions the host held before each RPC of this session (oldest first): donors for a renter
+	// that builds its proposal on an older revision of the same session
+	hist []types.FileContractRevision
+}
+
+func (w *world) closeSession() {
+	if w.sess == nil {
+		return
+	}
+	vhlib.Try(func() {
+		proto2.RPCUnlock(w.sess.t2)
+		w.sess.done()
+	})
+	w.sess = nil
+}
+
+// ctx2 is what an RHP2 RPC of the harness renter is built from: `latest` = the host's stored
+// revision (an honest renter builds on it), `donor` = the revision whose payouts the renter
+// actually starts from (base=k: the one k RPCs back in this session).
+type ctx2 struct {
+	c      int
+	ses    bool
+	base   int
+	latest crhp2.ContractRevision
+	donor  types.FileContractRevision
+}
+
+// prep2 reads ses= / sb= of the op.  Must be called before the line is composed.
+func (w *world) prep2(p vhlib.ParsedLine, c int) ctx2 {
+	x := ctx2{c: c, ses: p.Int("ses") == 1, base: p.Int("sb"), latest: w.revision(c)}
+	x.donor = x.latest.Revision
+	if w.sess != nil && (!x.ses || w.sess.c != c) {
+		w.closeSession()
+	}
+	if x.ses && w.sess != nil && x.base > 0 && len(w.sess.hist) > 0 {
+		i := len(w.sess.hist) - x.base
+		if i < 0 {
+			i = 0
+		}
+		x.donor = w.sess.hist[i]
+	} else {
+		x.base = 0
+	}
+	return x
+}
+
+// eff translates what the renter subtracts from its donor revision (raw transfer `pay`, raw burn)
+// into what the proposal moves relative to the host's latest revision — the model's inputs.  neg: the
+// proposal would RAISE the renter's valid payout or the host's missed payout (must be refused).
+func (x ctx2) eff(pay, burn types.Currency) (epay, eburn types.Currency, neg bool) {
+	l, d := x.latest.Revision, x.donor
+	pv := new(big.Int).Sub(l.ValidRenterPayout().Big(), new(big.Int).Sub(d.ValidRenterPayout().Big(), pay.Big()))
+	bv := new(big.Int).Sub(l.MissedHostPayout().Big(), new(big.Int).Sub(d.MissedHostPayout().Big(), burn.Big()))
+	if pv.Sign() < 0 || bv.Sign() < 0 {
+		return types.ZeroCurrency, types.ZeroCurrency, true
+	}
+	return cur(pv.String()), cur(bv.String()), false
+}
+
+// tag renders the session fields of the op line.
+func (x ctx2) tag(pay, burn types.Currency) string {
+	_, _, neg := x.eff(pay, burn)
+	return fmt.Sprintf("ses=%d sb=%d neg=%d rpay=%s rburn=%s", vhlib.B01(x.ses), x.base, vhlib.B01(neg), cs(pay), cs(burn))
+}
+
+// run2 runs fn with an RHP2 transport holding the lock of the contract: a fresh lock/unlock pair, or
+// (ses=1) the open session, which stays open afterwards.  The revision handed to fn is the host's
+// latest with the donor's payouts.  A host-side error ends the session (rhp/v2 `upgrade` returns on
+// the first handler error), so it is dropped here as well.
+func (w *world) run2(x ctx2, fn func(t2 *crhp2.Transport, rev *crhp2.ContractRevision) error) (err error, panicked bool, msg string) {
+	c := x.c
+	errCleared := errors.New("harness: contract cleared, nothing to propose")
+	build := func() (crhp2.ContractRevision, bool) {
+		rev := x.latest
+		rev.Revision = cloneRev(x.latest.Revision)
+		if rev.Revision.RevisionNumber == types.MaxRevisionNumber {
+			// the contract was cleared (renewed): no honest proposal exists.  Inside a session the
+			// renter retries with the last revisable revision it saw (the host must refuse: fix 778b5c0
+			// makes the session follow the clearing revision); outside there is nothing to send.
+			var prev *types.FileContractRevision
+			if w.sess != nil {
+				for i := len(w.sess.hist) - 1; i >= 0; i-- {
+					if w.sess.hist[i].RevisionNumber != types.MaxRevisionNumber {
+						prev = &w.sess.hist[i]
+						break
+					}
+				}
+			}
+			if prev == nil {
+				return rev, false
+			}
+			rev.Revision = cloneRev(*prev)
+			w.tr.Count("session:rpc_after_clearing")
+			return rev, true
+		}
+		for i := range rev.Revision.ValidProofOutputs {
+			if i < len(x.donor.ValidProofOutputs) {
+				rev.Revision.ValidProofOutputs[i].Value = x.donor.ValidProofOutputs[i].Value
+			}
+		}
+		for i := range rev.Revision.MissedProofOutputs {
+			if i < len(x.donor.MissedProofOutputs) {
+				rev.Revision.MissedProofOutputs[i].Value = x.donor.MissedProofOutputs[i].Value
+			}
+		}
+		return rev, true
+	}
+	if !x.ses {
+		panicked, msg = vhlib.Try(func() {
+			t2, done := w.session2()
+			defer done()
+			if _, err = proto2.RPCLock(t2, renterKey(w.ckey[c]), w.cids[c]); err != nil {
+				err = fmt.Errorf("lock: %w", err)
+				return
+			}
+			rev, ok := build()
+			if !ok {
+				err = errCleared
+			} else {
+				err = fn(t2, &rev)
+			}
+			proto2.RPCUnlock(t2)
+		})
+		return
+	}
 	panicked, msg = vhlib.Try(func() {
-		t2, done := w.session2()
-		defer done()
-		var rev crhp2.ContractRevision
-		rev, err = proto2.RPCLock(t2, renterKey(w.ckey[c]), w.cids[c])
-		if err != nil {
-			err = fmt.Errorf("lock: %w", err)
+		if w.sess == nil {
+			t2, done := w.session2()
+			if _, err = proto2.RPCLock(t2, renterKey(w.ckey[c]), w.cids[c]); err != nil {
+				err = fmt.Errorf("lock: %w", err)
+				done()
+				return
+			}
+			w.sess = &sess2{c: c, t2: t2, done: done}
+			w.tr.Count("session:opened")
+		} else {
+			w.tr.Count("session:rpc_on_open_lock")
+		}
+		w.sess.hist = append(w.sess.hist, cloneRev(x.latest.Revision))
+		rev, ok := build()
+		if !ok {
+			err = errCleared
 			return
 		}
-		err = fn(t2, &rev)
-		proto2.RPCUnlock(t2)
+		err = fn(w.sess.t2, &rev)
 	})
+	if (err != nil && !strings.HasPrefix(err.Error(), "harness:")) || panicked {
+		// the host has ended the session (or may have): the lock is gone
+		if w.sess != nil {
+			vhlib.Try(func() { w.sess.done() })
+			w.sess = nil
+		}
+	}
 	return
 }
 
@@ -165,7 +309,8 @@ func (w *world) doWrite(p vhlib.ParsedLine) {
 	for _, a := range acts {
 		hasUpdate = hasUpdate || a.Type == crhp2.RPCWriteActionUpdate
 	}
-	rev0 := w.revision(c)
+	x := w.prep2(p, c)
+	rev0 := x.latest
 	settings := w.settings2()
 	remaining := rev0.Revision.WindowEnd - w.node.Chain.Tip().Height
 	// rpcWrite refuses a Merkle proof for update actions before it computes the cost (core's
@@ -179,13 +324,14 @@ func (w *world) doWrite(p vhlib.ParsedLine) {
 	total, coll := cost.Total()
 	pay := overAmount(total, p.Args["ov"], rev0.Revision.ValidRenterPayout())
 	burn := coll.Mul64(p.U64("bm")).Div64(1000)
-	op := fmt.Sprintf("write c=%d acts=%s ov=%s bm=%d proof=%d upd=%d ust=%d %s pay=%s burn=%s", c, p.Args["acts"], p.Args["ov"], p.U64("bm"), vhlib.B01(proof),
-		vhlib.B01(hasUpdate), vhlib.B01(stored), costStr(cost), cs(pay), cs(burn))
+	epay, eburn, _ := x.eff(pay, burn)
+	op := fmt.Sprintf("write c=%d acts=%s ov=%s bm=%d proof=%d %s upd=%d ust=%d %s pay=%s burn=%s", c, p.Args["acts"], p.Args["ov"], p.U64("bm"), vhlib.B01(proof), x.tag(pay, burn),
+		vhlib.B01(hasUpdate), vhlib.B01(stored), costStr(cost), cs(epay), cs(eburn))
 	if hasUpdate {
 		w.tr.Count(fmt.Sprintf("write:update_proof%d_stored%d", vhlib.B01(proof), vhlib.B01(stored)))
 	}
 	before := w.revNum(c)
-	err, panicked, msg := w.locked2(c, func(t2 *crhp2.Transport, rev *crhp2.ContractRevision) error {
+	err, panicked, msg := w.run2(x, func(t2 *crhp2.Transport, rev *crhp2.ContractRevision) error {
 		if rev.Revision.ValidRenterPayout().Cmp(pay) < 0 || rev.Revision.MissedHostPayout().Cmp(burn) < 0 {
 			// the payouts of such a proposal cannot be written down without going below zero; the
 			// model refuses it as well (transfer > renter payout / burn > host missed payout)
@@ -347,10 +493,12 @@ func (w *world) doRead(p vhlib.ParsedLine) {
 		return
 	}
 	total, _ := cost.Total()
+	x := w.prep2(p, c)
 	pay := overAmount(total, p.Args["ov"], w.vrpOf(c))
-	op := fmt.Sprintf("read c=%d secs=%s ov=%s %s pay=%s burn=0", c, p.Args["secs"], p.Args["ov"], costStr(cost), cs(pay))
+	epay, eburn, _ := x.eff(pay, types.ZeroCurrency)
+	op := fmt.Sprintf("read c=%d secs=%s ov=%s %s %s pay=%s burn=%s", c, p.Args["secs"], p.Args["ov"], x.tag(pay, types.ZeroCurrency), costStr(cost), cs(epay), cs(eburn))
 	before := w.revNum(c)
-	err, panicked, msg := w.locked2(c, func(t2 *crhp2.Transport, rev *crhp2.ContractRevision) error {
+	err, panicked, msg := w.run2(x, func(t2 *crhp2.Transport, rev *crhp2.ContractRevision) error {
 		if rev.Revision.ValidRenterPayout().Cmp(pay) < 0 {
 			return errors.New("harness: insufficient renter funds")
 		}
@@ -370,13 +518,15 @@ func (w *world) doRoots(p vhlib.ParsedLine) {
 	settings := w.settings2()
 	cost := settings.RPCSectorRootsCost(off, n)
 	total, _ := cost.Total()
+	x := w.prep2(p, c)
 	pay := overAmount(total, p.Args["ov"], w.vrpOf(c))
-	op := fmt.Sprintf("roots c=%d off=%d n=%d secs=%d ov=%s %s pay=%s burn=0", c, off, n, secsNow, p.Args["ov"], costStr(cost), cs(pay))
+	epay, eburn, _ := x.eff(pay, types.ZeroCurrency)
+	op := fmt.Sprintf("roots c=%d off=%d n=%d secs=%d ov=%s %s %s pay=%s burn=%s", c, off, n, secsNow, p.Args["ov"], x.tag(pay, types.ZeroCurrency), costStr(cost), cs(epay), cs(eburn))
 	if n == 0 || off > secsNow || n > secsNow-off {
 		w.tr.Count("roots:bad_range")
 	}
 	before := w.revNum(c)
-	err, panicked, msg := w.locked2(c, func(t2 *crhp2.Transport, rev *crhp2.ContractRevision) error {
+	err, panicked, msg := w.run2(x, func(t2 *crhp2.Transport, rev *crhp2.ContractRevision) error {
 		if rev.Revision.ValidRenterPayout().Cmp(pay) < 0 {
 			return errors.New("harness: insufficient renter funds")
 		}
@@ -1076,7 +1226,8 @@ func (w *world) doRenew2(p vhlib.ParsedLine) {
 	}
 	settings := w.settings2()
 	cm, wm := w.node.Chain, w.node.Wallet
-	cur0 := w.revision(c)
+	x := w.prep2(p, c)
+	cur0 := x.latest
 	rp, col := cur(p.Args["rp"]), cur(p.Args["col"])
 	endHeight := cur0.Revision.WindowStart + p.U64("ext")
 	renewed, basePrice := crhp2.PrepareContractRenewal(cur0.Revision, wm.Address(), rp, col, settings, endHeight)
@@ -1094,13 +1245,14 @@ func (w *world) doRenew2(p vhlib.ParsedLine) {
 		sto = settings.StoragePrice.Mul64(renewed.Filesize).Mul64(ext)
 		baseColl = settings.Collateral.Mul64(renewed.Filesize).Mul64(ext)
 	}
-	op := fmt.Sprintf("renew2 c=%d new=%d ov=%s rp=%s col=%s ext=%d pay=%s minpay=%s hp=%s mhp=%s vrp=%s price=%s sto=%s bcoll=%s maxcoll=%s", c, len(w.cids), p.Args["ov"],
-		cs(rp), cs(col), p.U64("ext"), cs(pay), cs(minPay), cs(renewed.ValidHostPayout()), cs(renewed.MissedHostPayout()), cs(renewed.ValidRenterPayout()),
+	epay, _, _ := x.eff(pay, types.ZeroCurrency)
+	op := fmt.Sprintf("renew2 c=%d new=%d ov=%s rp=%s col=%s ext=%d %s pay=%s minpay=%s hp=%s mhp=%s vrp=%s price=%s sto=%s bcoll=%s maxcoll=%s", c, len(w.cids), p.Args["ov"],
+		cs(rp), cs(col), p.U64("ext"), x.tag(pay, types.ZeroCurrency), cs(epay), cs(minPay), cs(renewed.ValidHostPayout()), cs(renewed.MissedHostPayout()), cs(renewed.ValidRenterPayout()),
 		cs(settings.ContractPrice), cs(sto), cs(baseColl), cs(settings.MaxCollateral))
 	before := w.revNum(c)
 	var newRev crhp2.ContractRevision
 	var herr error
-	err, panicked, msg := w.locked2(c, func(t2 *crhp2.Transport, rev *crhp2.ContractRevision) error {
+	err, panicked, msg := w.run2(x, func(t2 *crhp2.Transport, rev *crhp2.ContractRevision) error {
 		if rev.Revision.ValidRenterPayout().Cmp(pay) < 0 {
 			herr = errors.New("harness: insufficient renter funds")
 			return herr
